@@ -5,6 +5,7 @@ package layer4
 
 import (
 	"net"
+	"time"
 
 	"go.uber.org/zap"
 )
@@ -14,6 +15,13 @@ func VerifServerHandle(s *Server, conn net.Conn) { s.handle(conn) }
 
 // VerifServe runs the TCP accept loop on ln.
 func VerifServe(s *Server, ln net.Listener) error { return s.serve(ln) }
+
+// VerifListenerWrapperLogger re-compiles a provisioned wrapper's routes with another logger, so that a
+// harness can observe what the routing loop logs (exactly what Provision does, with a given logger).
+func VerifListenerWrapperLogger(lw *ListenerWrapper, logger *zap.Logger) {
+	lw.logger = logger
+	lw.compiledRoute = lw.Routes.Compile(logger, time.Duration(lw.MatchingTimeout), listenerHandler{})
+}
 
 // VerifServePacket runs the UDP demultiplexing loop on pc.
 func VerifServePacket(s *Server, pc net.PacketConn) error { return s.servePacket(pc) }
